@@ -526,7 +526,10 @@ class Ctx:
             if need_driver:
                 ok2, out2 = build_driver()
                 self.oblige("build:driver", "build", ok2, out2)
-        return ok and ok2
+        # a model that no longer builds (a regenerated table was not produced, a proof module broke) must not stop the
+        # search for a failing input: the implementation side and its property monitors still run (see correspond)
+        self.driver_ok = ok2
+        return ok
 
     def correspond(self, domain, n, name=None, args=None, comparator=None, nontrivial=None, seed_offset=0,
                    sample_n=3, on_mismatch=None, model=True, shrink=True, hit_props=None):
@@ -536,6 +539,10 @@ class Ctx:
         seed = self.seed + seed_offset
         r.gen(domain, n, seed, self.tier, args)
         r.exec_impl()
+        if model and not getattr(self, "driver_ok", True):
+            model = False
+            self.oblige("correspondence:%s" % name, "correspondence", False,
+                        "the model driver did not build: the implementation was run alone, judged by the property monitors only")
         if model:
             r.exec_model()
         r.load()
@@ -581,8 +588,8 @@ class Ctx:
             self.oblige("correspondence:%s" % name, "correspondence", False, detail)
             if on_mismatch:
                 on_mismatch(r, bad, detail)
-        else:
-            self.oblige("correspondence:%s" % name, "correspondence", True, "%d cases agree" % ncases)
+        elif model or getattr(self, "driver_ok", True):
+            self.oblige("correspondence:%s" % name, "correspondence", True, "%d cases agree" % ncases if model else "%d cases run on the implementation under its monitors (no model in this stage)" % ncases)
         props_ok = set(hit_props or [self.pid])
         for h in r.hits:
             if h.get("prop") not in props_ok:
